@@ -765,6 +765,11 @@ def quantify(ip: Interp, g, universal: bool, n):
             # bind the range variable itself so that array reads `a[k]` are usable triggers
             sub.assign(gen.target, k)
             rng += [k >= seqv.lo, k < seqv.hi]
+        elif isinstance(seqv, ArrStr):
+            # quantify over the absolute index of the underlying array: slices of one string then range over the same
+            # terms `arr[k]`, and the solver relates them without arithmetic matching
+            sub.assign(gen.target, Char(z3.Select(seqv.arr, k)))
+            rng += [k >= seqv.lo, k < seqv.hi]
         else:
             ln, getter = owner.iter_access(seqv, n)
             sub.assign(gen.target, getter(k))
